@@ -9,6 +9,7 @@ a consistent writer+reader change (another family id, another flag bit, another 
 is caught here.  CPC has one serial version and no legacy formats.
 -/
 import DSModel.Wire.CpcGen
+import DSGen.Cpc
 namespace DS.Wire.Cpc
 open DS.Wire
 
@@ -47,6 +48,17 @@ theorem flags_documented :
     flagsByte documented true false true = 0x16 ∧ flagsByte documented true true true = 0x1e ∧
     flagsByte documented false true true = 0x1a ∧ flagsByte documented false false true = 0x12 := by
   decide
+
+/-- order-sensitive digest of a table (polynomial hash modulo 2^61 - 1) -/
+def digest (l : List Nat) : Nat := l.foldl (fun a x => (a * 1000003 + x + 1) % 2305843009213693951) 7
+
+/-- **the compression tables are part of the cross-language format**: the 22 Huffman tables, the 65-symbol x-delta table and the
+16 column permutations regenerated from compression_data.hpp have the documented digests (a consistent change of a table
+keeps every round trip and is caught here) -/
+theorem compression_tables_documented :
+    digest DSGen.cpc_ENC_TABLES.flatten = 410311389540784090 ∧ digest DSGen.cpc_UNARY65 = 2069375777614789736 ∧
+    digest DSGen.cpc_COL_PERMS.flatten = 500374105028208345 := by
+  decide +kernel
 
 /-! Non-vacuity: the first bytes of an empty lg_k = 11 image with the default seed are the documented ones. -/
 def exEmpty : Image :=
